@@ -1034,7 +1034,7 @@ def check_connect(ctx):
         for q in sorted(reach):
             Bq = P.B(q)
             for bb, t in Bq.calls():
-                if parent_fn and parent_fn in callee_names(t):
+                if parent_fn and (callee_of(t)[0] == parent_fn or (parent_fn in callee_names(t) and not (callee_of(t)[0] or '').endswith('Future::poll'))):
                     sites.append((Bq, ('call', bb)))
             for bb, j, st in Bq.stmts():
                 if st['k'] == '=' and st['rv']['k'] == 'agg' and st['rv'].get('def') == p and q != parent_fn:
